@@ -108,3 +108,17 @@ contract(
     emits=["get", "observe", "yield"],
     from_property="deliver every byte ... once and in order ($() / @$() drain the reader through iterqueue)",
 )
+
+
+# ---- the queue between producer and consumer is UNBOUNDED: the producer's put never blocks -----------------------------------
+# (populate_fd_queue's contract treats `queue.put` as an event that always completes; with a bounded queue a consumer that waits
+#  for the process before draining - alias stages, plain Popen - would deadlock once the output exceeds the bound)
+QR0 = Obj("QueueReader", closed=("optional", Bool), thread=("optional", Union(NoneT, Opaque("thread"))), queue=("optional", Opaque("queue")),
+          timeout=("optional", Union(NoneT, Real)), fd=("optional", Int))
+contract(
+    R_ + "QueueReader.__init__", "C06", params=dict(self=QR0, fd=Int, timeout=Union(NoneT, Real)),
+    externals={"queue.Queue": Ext(ret=Opaque("queue"), allowed_kwargs=[], requires=["nargs == 0"], note="an unbounded FIFO (no maxsize)")},
+    modifies=["self"],
+    ensures={"starts-open-with-no-producer-yet": "not self.closed and self.thread is None and self.fd == fd"},
+    from_property="regardless of output size (the reader queue must not bound how much the producer may have in flight)",
+)
